@@ -217,6 +217,20 @@ func (nm *Names) M(id string) string {
 	return fmt.Sprintf("#%x", id)
 }
 
+// IDOf is the reverse lookup: the real message id registered under a symbolic
+// name (e.g. of a message the node under test published itself).
+func (nm *Names) IDOf(name string) (string, bool) {
+	nm.mu.Lock()
+	defer nm.mu.Unlock()
+	best, ok := "", false
+	for id, n := range nm.msgs {
+		if n == name && (!ok || id < best) {
+			best, ok = id, true
+		}
+	}
+	return best, ok
+}
+
 func (nm *Names) Ms(ids []string) []string {
 	out := make([]string, 0, len(ids))
 	for _, id := range ids {
